@@ -72,7 +72,7 @@ SRC_KERNELS = {
             "Tree_subtree_id", "Tree_subtree", "Tree_concat", "get_levels_tree_from_i", "Tree_get_levels", "Tree_get_max_level",
             "standard_crossover", "Tree_get_common_region", "one_point_crossoverGP", "Tree_call", "Tree_str", "Tree_init_n_args", "Tree_eq"],
     "C11": ["binary_search_interval", "check_for_value", "argsort_k", "tournament_selection", "proportional_selection", "rank_selection", "sattolo_shuffle", "random_sample", "random_weighted_sample", "Select_minmax_scale"],
-    "C12": ["Net_max_axis", "Net_softmax_numba"],     # np2lean, matrices over the rationals
+    "C12": ["Net_max_axis", "Net_softmax_numba", "Net_multiactivation2d"],     # np2lean, matrices over the rationals
     "C14": ["SelfCGA_get_new_proba", "SelfCGA_choice_operators", "SelfCGA_adapt", "PDPGA_adapt", "PDPGA_get_new_individ_g", "PDPGP_get_new_individ_g", "GA_get_new_individ_g", "GP_get_new_individ_g"],
     "C15": ["SHADE_generate_F_CR", "SHADE_update_u_F", "DE_greedy_replacement", "jDE_greedy_replacement", "SHADE_bookkeeping", "SHAGA_bookkeeping", "jDE_get_mutate_F", "jDE_get_mutate_CR", "SHADE_update_u_CR", "SHAGA_update_u", "Lehmer_mean_weighted", "Lehmer_mean_plain", "SHAGA_randn", "SHAGA_randc", "SHAGA_generate_MR_CR"],
     "C16": ["get_n_jobs", "EA_split_population"],
